@@ -193,7 +193,24 @@ def stateful_template(rng, index):
     formatting state, values computed once per class or per specialisation, counters behind static finals."""
     fr = rng.choice(["0.125f", "0.375f", "2.625f", "10.0625f"])
     wh = rng.choice(["2.0f", "7.0f", "100.0f"])
-    k = index % 4
+    k = index % 5
+    if k == 4:
+        # deterministic quantum shapes: every shot ends with a measured-1 qubit that is not reset, and the next
+        # shot starts by resetting / re-preparing the same simulator indices
+        n = rng.randint(1, 3)
+        body = []
+        for i in range(n):
+            body += ["    qubit q%d;" % i, "    reset q%d;" % i]
+        for i in range(n):
+            if rng.random() < 0.8:
+                body.append("    x(q%d);" % i)
+        order = list(range(n))
+        rng.shuffle(order)
+        for i in order:
+            body += ["    bit m%d = measure q%d;" % (i, i), "    echo(m%d);" % i]
+        if rng.random() < 0.5:
+            body += ["    reset q%d;" % order[0], "    bit again = measure q%d;" % order[0], "    echo(again);"]
+        return "function main() -> void {\n" + "\n".join(body) + "\n}\n"
     if k == 0:
         return ("function main() -> void {\n    echo(%s);\n    echo(%s);\n    echo(%s + %s);\n    echo(\"v=\" + %s);\n"
                 "    float[] a = {%s, %s};\n    echo(a);\n    echo(3);\n    echo(1.5f * 2);\n}\n" % (fr, wh, fr, fr, fr, fr, wh))
